@@ -503,6 +503,25 @@ def run(chk):
         return True, "", ["%s:%s" % (b.file, loop_s[0][2].get("line")), "%s:%s" % (b.file, loop_t[0][2].get("line"))]
     chk.ob("C13.R4:metric-buckets", "a sequence-valued metric's points are contiguous buckets: start, advance by one step, end", metric_buckets)
 
+    def time_units():
+        """Every OTLP time field is `*_unix_nano`: the encoders convert durations with as_nanos() only (an as_micros / as_millis / as_secs in
+        the data encoders would put a value of another unit into a nanosecond field)."""
+        UNITS = ("as_nanos", "as_micros", "as_millis", "as_secs", "as_secs_f64", "as_secs_f32", "subsec_nanos", "subsec_micros", "subsec_millis")
+        n = 0
+        for b in bodies:
+            if b.crate != "emit_otlp" or "/data" not in b.file or "generated" in b.file or "::tests::" in b.key:
+                continue
+            for c in b.calls(normal_only=True):
+                if c.callee.get("name") in UNITS and "Duration" in (c.callee.get("path") or ""):
+                    n += 1
+                    if c.callee.get("name") != "as_nanos":
+                        return False, ("%s converts a duration with %s at %s: OTLP time fields are nanoseconds since the Unix epoch" %
+                                       (b.key, c.callee.get("name"), c.loc)), [], c.loc
+        if n < 5:
+            raise mir.AnchorMissing("duration-to-nanosecond conversions in the OTLP encoders (found %d)" % n)
+        return True, "", ["%d conversions, all as_nanos" % n]
+    chk.ob("C13.R6:time-units", "OTLP timestamps are converted to nanoseconds, the unit of every *_unix_nano field", time_units)
+
     def point_arithmetic():
         """Integer metric points are accumulated with overflow detection: an integer written to a data point comes straight from the
         input or from the Some payload of a checked operation; a clamped or wrapped total is not the sum and must not be exported
